@@ -9,17 +9,20 @@ PYVT = shutil.which("python3-vt") or "python3-vt"
 
 
 def run_job(args):
-    base, k, cases, par = args
+    base, k, cases, par = args[:4]; optimized = len(args) > 4 and args[4]
     d = os.path.join(base, "w%d" % k); os.makedirs(d)
     jf = os.path.join(d, "job.json"); json.dump({"dir": os.path.join(d, "files"), "cases": cases}, open(jf, "w"))
     env = dict(os.environ, PYTHONPATH=os.environ.get("VERIF_REPO", "/repo"), PYTHONDONTWRITEBYTECODE="1", JOBLIB_TEMP_FOLDER=d)
     with open(os.path.join(d, "log"), "w") as lf:
-        try: subprocess.run([PYVT, WORKER] + (["--parallel"] if par else []) + [jf], env=env, stdout=lf, stderr=lf, stdin=subprocess.DEVNULL, timeout=3000)
+        try: subprocess.run([PYVT] + (["-O"] if optimized else []) + [WORKER] + (["--parallel"] if par else []) + [jf], env=env, stdout=lf, stderr=lf, stdin=subprocess.DEVNULL, timeout=3000)
         except subprocess.TimeoutExpired: pass
     if not os.path.exists(jf + ".out"): raise RuntimeError("array worker failed: " + open(os.path.join(d, "log")).read()[-600:])
     r = json.load(open(jf + ".out"))
     subprocess.run(["pkill", "-9", "-f", d + "/"])      # (the trailing slash keeps sibling directories w1 / w10 apart); shutil.rmtree(d, ignore_errors=True)
     return r
+
+
+OPT_LEG = True      # a sample of the cases is replayed under "python -O" (assert statements stripped)
 
 
 def body(c):
@@ -57,13 +60,20 @@ def body(c):
                 if dt == "object" and lay.startswith("memmap"): continue        # a memory map of object pointers is meaningless in another process
                 pcases.append({"dtype": dt, "shape": "bigmat" if lay in ("F", "transposed", "memmap_T", "memmap_strided") else "big", "layout": lay, "delta": delta})
     pj = [(base, 100 + k, pcases[k::4], True) for k in range(4)]
+    # the same round trips with assertions stripped (python -O / PYTHONOPTIMIZE): nothing may depend on an assert statement
+    ocases = cases[:: max(1, len(cases) // (150 if c.quick else 2000))]
+    oj = [(base, 200 + k, ocases[k::3], False, True) for k in range(3)]
+    njobs_plain = len(jobs)
+    jobs = jobs + oj
     with ThreadPoolExecutor(max_workers=nw) as ex:
         results = list(ex.map(run_job, jobs + pj))
     shutil.rmtree(base, ignore_errors=True)
-    for (b, k, cs, par), res in zip(jobs + pj, results):
+    for jb, res in zip(jobs + pj, results):
+        cs, par = jb[2], jb[3]; opt = len(jb) > 4 and jb[4]
         for case, r in zip(cs, res):
             c.evaluations += 1
             key = {"leg": "workers" if par else "persist", **{kk: vv for kk, vv in case.items() if kk != "memmap"}}
+            if opt: key["python_O"] = True
             c.nontrivial.add(json.dumps(key, sort_keys=True))
             for pb in r["problems"]:
                 kind = "byte_order_normalised" if "NORMALISED" in pb else pb[:50]
